@@ -53,7 +53,7 @@ impl ReadXml for ServerHello {
                     tracing::debug!(?tag);
                     let span = reader.read_text(tag.to_end().name())?;
                     tracing::debug!(?span, "trying to parse session_id");
-                    session_id = Some(span.parse()?);
+                    session_id = Some(span.trim().parse()?);
                     tracing::debug!(?session_id);
                 }
                 (_, Event::Comment(_)) => {
